@@ -444,6 +444,11 @@ func (r *rewriter) selectStmt(sel *ast.SelectStmt) ([]ast.Stmt, ast.Stmt) {
 	def := "false"
 	if hasDefault {
 		def = "true"
+	} else {
+		// keep the statement "terminating" like a select without default
+		sw.Body.List = append(sw.Body.List, &ast.CaseClause{List: nil, Body: []ast.Stmt{
+			&ast.ExprStmt{X: call(ast.NewIdent("panic"), &ast.BasicLit{Kind: token.STRING, Value: strconv.Quote("vsched: select returned no case")})},
+		}})
 	}
 	sw.Tag = call(r.vs("Select"), append([]ast.Expr{ast.NewIdent(def)}, cases...)...)
 	return pre, sw
